@@ -145,13 +145,18 @@ def run_property(pid, tier, seed):
     backends = defaultdict(int)
     failed = []
     candidates = []
+    infeasible_paths = {}
     for oid, lst in agg.items():
         exp = lst[0][0].expect_sat
         sts = [r['status'] for _, r in lst]
         solver_time += sum(r['time'] for _, r in lst)
         if exp:
-            if any(s == 'unsat' for s in sts):
-                res.errors.append(f"vacuity: hypotheses of {oid} are contradictory (canary refuted nothing)")
+            # vacuity: NO path to this kind of exit is feasible under the assumed hypotheses (a single refuted path is an
+            # infeasible path - e.g. an exception handler that a precondition rules out - and is only counted)
+            if all(s == 'unsat' for s in sts):
+                res.errors.append(f"vacuity: hypotheses of {oid} are contradictory on every path (canary refuted nothing)")
+            elif any(s == 'unsat' for s in sts):
+                infeasible_paths[oid] = sum(1 for s in sts if s == 'unsat')
             continue
         n_obl += 1
         for _, r in lst:
@@ -288,6 +293,24 @@ def run_property(pid, tier, seed):
             res.violations.append(entry)
     if n_obl == 0:
         res.errors.append("zero obligations generated")
+    # ---- 5b. encoder soundness guard: engine vs CPython on concrete reachable calls (thorough tier) ----------------
+    diff_info = None
+    if tier == 'thorough' or os.environ.get('PYVC_DIFF'):
+        try:
+            from . import diffcheck
+            keys = {item['fn'] for item in P.CLOSURE}
+            diff_info = diffcheck.run_for(keys, workers=int(os.environ.get('PYVC_WORKERS', '0') or 0) or (os.cpu_count() or 4), seed=seed)
+            for f in diff_info['failures'][:3]:
+                res.errors.append(f"engine-vs-CPython differential check failed for {f['function']} (case {f.get('case')}): "
+                                  f"{f.get('detail')} - the encoding or an assumed invariant excludes an execution the real "
+                                  f"code performs")
+            diff_info = {'concrete_calls': diff_info['cases'], 'per_function': diff_info['functions'],
+                         'failures': [{k: v for k, v in f.items() if k != 'native'} for f in diff_info['failures'][:5]],
+                         'rule': 'real objects built through the library API, real call run natively with scripted draws; the '
+                                 'symbolic executor must admit the same pre-state, outcome and post-state on some path (only '
+                                 'refutations count); functions of the closure that have registered concrete calls'}
+        except Exception as ex:   # noqa
+            res.errors.append(f"differential check crashed: {ex}\n{traceback.format_exc()}")
     # ---- 6. evidence -------------------------------------------------------------------------------------
     wall = time.time() - t0
     level = P.LEVEL
@@ -310,6 +333,8 @@ def run_property(pid, tier, seed):
         'sources_sha256': frontend.sources_read(),
         'lean': lean_info,
         'bounded_stand_ins': bounded_info,
+        'encoder_differential': diff_info,
+        'infeasible_paths': infeasible_paths,
         'undecided': res.undecided, 'known_findings_reported': [k['id'] for k, _ in res.known],
         'evaluations': sum(b.get('evaluations', 0) for b in bounded_info),
         'distinct_nontrivial': sum(b.get('distinct_nontrivial', 0) for b in bounded_info),
